@@ -4,5 +4,6 @@ set -eu
 cd "$(dirname "$0")"
 export GOFLAGS=-mod=mod GOPROXY=off
 mkdir -p bin evidence
+make -C killat >/dev/null
 ( cd harness && go build -tags verif -o ../bin/lsmc ./cmd/lsmc )
 echo "setup ok"
